@@ -167,11 +167,21 @@ class Interp:
             strs = [self.display(R.walk(x, sub), sub, True) for x in args]
             self.out.append(format_print(strs)); yield sub; return
         if name == 'print_list':
-            if len(args) != 1: raise Outside('print_list with several arguments')
-            t = R.walk(args[0], sub)
-            v = R.list_view(t, sub) if t[0] == 'lst' else None
-            if v is None or v[1] is not None: raise Outside('print_list on a non-list or open list')
-            self.out.append(', '.join(self.display(R.walk(e, sub), sub) for e in v[0]) + '\n'); yield sub; return
+            # each list argument on a line of its own (elements separated by ", "); a list that follows another argument is
+            # preceded by ",\n"; a non-list argument is written on a line of its own
+            text, first = '', True
+            for a in args:
+                t = R.walk(a, sub)
+                if t[0] == 'lst':
+                    v = R.list_view(t, sub)
+                    if v is None or v[1] is not None: raise Outside('print_list on an open or improper list')
+                    if not first: text += ',\n'
+                    text += ', '.join(self.display(R.walk(e, sub), sub) for e in v[0]) + '\n'
+                else:
+                    if t[0] == 'var': raise Outside('print_list on an unbound variable')
+                    text += self.display(t, sub) + '\n'
+                first = False
+            self.out.append(text); yield sub; return
         if name == 'append':
             items = []
             for x in args[:-1]:
